@@ -53,7 +53,10 @@ func TestVerifC17Child(t *testing.T) {
 		t.Fatal(err)
 	}
 	fail := func(what string, err error) {
-		tr.Emit("ChildErr", "what", what, "err", err.Error())
+		if verifC17Busy(err) {
+			verifC17DieBusy(tr, what, err)
+		}
+		tr.Emit("ChildErr", "what", what, "err", err.Error(), "gen", gen)
 		t.Fatalf("%s: %v", what, err)
 	}
 	verifEmit = tr.Emit
